@@ -4,21 +4,17 @@ import LicenseExpr.Model.Simplify
 -/
 namespace LE
 
-/-- the last element of `l` whose rendering is `k` (a dict keeps the last value) -/
-def lastWith (k : Str) (l : List (Expr Atom)) : Option (Expr Atom) :=
-  l.reverse.find? (fun x => renderStr x == k)
-
-/-- renderings in order of first occurrence -/
-def firstKeys (seen : List Str) : List (Expr Atom) → List Str
-  | [] => []
+/-- the loop `for x in expressions: firsts.setdefault(str(x), x)`: `firsts` as the list of its items
+    in insertion order -/
+def uniqGo (firsts : List (Str × Expr Atom)) : List (Expr Atom) → List (Str × Expr Atom)
+  | [] => firsts
   | x :: xs =>
     let k := renderStr x
-    if seen.contains k then firstKeys seen xs else k :: firstKeys (seen ++ [k]) xs
+    if firsts.any (fun kv => kv.1 == k) then uniqGo firsts xs else uniqGo (firsts ++ [(k, x)]) xs
 
-/-- `list({str(x): x for x in expressions}.values())`: one per rendering, at the position of the
-    first, with the value of the last -/
-def uniqByRender (l : List (Expr Atom)) : List (Expr Atom) :=
-  (firstKeys [] l).filterMap (fun k => lastWith k l)
+/-- `list(firsts.values())`: one per rendering, the first of those that render alike, in order of
+    first occurrence -/
+def uniqByRender (l : List (Expr Atom)) : List (Expr Atom) := (uniqGo [] l).map (·.2)
 
 /-- the tail of `combine_expressions` once its inputs are expressions -/
 def combineCore (op : Op) (unique : Bool) (l : List (Expr Atom)) : Option (Expr Atom) :=
